@@ -627,7 +627,7 @@ func init() {
 		},
 		Rule: "case k: a declaration mixing hidden/visible options (25%), groups (20%, nested) and commands (25%) to depth 3, options without short name in nested groups of sub-commands, default masks (incl. '-') whose real defaults are unique tokens, env keys under nested env-namespaces with 3 delimiters, choices, value names, described positionals, 1-5 sub-commands (both usage-line forms); generator = {help, help, man}[k mod 3]; a random active chain of visible commands selected by really parsing '<words> --help' (ErrHelp message) or by setting Active and calling WriteHelp. " +
 			"Oracle over unique-id tokens: every visible option along the chain has a row with its -s, --ns.long, =VALUE, [c1|c2], description, (default: ...) or mask and [$ENVKEY]; every described positional and every visible sub-command of the innermost command (aliases beside its description) is listed; tokens of hidden options/groups/commands and the real value of a masked default occur nowhere; the man page obeys the same visibility rule over the whole tree. distinct = (generator, chain length, route, #rows, #sub-commands).",
-		Assumptions: []string{"'the man page does the same' is read as the visibility-and-completeness claim for names, value name, description, default and aliases (the man format has no slot for choices)", "a visible group nested in a hidden group and chains through hidden commands are not generated", "short names of hidden options cannot be checked for absence (a single rune is not a unique token)"},
+		Assumptions: []string{"'the man page does the same' is read as the visibility-and-completeness claim for names, value name, description, default and aliases (the man format has no slot for choices)", "rows of a visible group nested in a hidden group are not required (nor forbidden); chains through hidden commands are not generated except in the history cases", "short names of hidden options cannot be checked for absence (a single rune is not a unique token)"},
 		Technique:   "runtime presence/absence monitor over unique-id tokens in the generated help text and man page; multi-step histories on one parser with direct oracles",
 		LevelText:   "Exploration over declarations x chains x generators with unique tokens making presence and absence decidable without parsing prose.",
 		LevelNote:   "Trusted: the visibility model (a transcription of the statement) and the row extraction.",
